@@ -20,6 +20,11 @@ pub struct ClientCfg {
     /// the logging handler panics (a user panic) after logging its k-th invocation
     #[serde(default)]
     pub handler_panic_at: Option<u8>,
+    /// user callbacks that use the library themselves (on an auxiliary client over a
+    /// no-op sink): bit 0 = the sink's emit records a metric with `.send()`, bit 1 = the
+    /// error handler does. Nothing may panic, nothing changes for the outer call.
+    #[serde(default)]
+    pub reenter: u8,
 }
 
 #[derive(Serialize, Deserialize, Clone, Copy, Debug, PartialEq, Eq, Hash, PartialOrd, Ord)]
@@ -310,6 +315,7 @@ pub fn cfg_strategy(max_tags: usize) -> impl Strategy<Value = ClientCfg> {
             container,
             handler,
             handler_panic_at: None,
+            reenter: 0,
         })
 }
 
@@ -618,11 +624,13 @@ pub fn fmt_case(max_calls: usize, max_cfg_tags: usize, max_ops: usize, refuse_we
         cfg_strategy(max_cfg_tags),
         prop::collection::vec(call_strategy(max_ops, refuse_weight), 1..=max_calls),
         prop::option::weighted(0.08, 1u8..4),
+        prop_oneof![9 => Just(0u8), 1 => 1u8..4],
     )
-        .prop_map(|(free, mut cfg, calls, hp)| {
+        .prop_map(|(free, mut cfg, calls, hp, reenter)| {
             if cfg.handler && calls.len() >= 3 {
                 cfg.handler_panic_at = hp;
             }
+            cfg.reenter = reenter;
             let c = FmtCase { cfg, calls };
             if free {
                 sanitize(c)
